@@ -84,6 +84,25 @@ ClosedFormBands(fn, fp, np, nn, u, w, a) ==
       fprCI == [j \in 1..n |-> RuleOfThree(fp[j], nn, <<Rate6(w[j]), Rate6(w[j])>>, a)]
   IN [fpr |-> Aggregate(fnr6, fnrCI, fprCI), fnr |-> Aggregate(fpr6, fprCI, fnrCI)]
 
+(* Envelope check that is robust to fixed-point ties: whether a rate equal to an interval end to    *)
+(* within one unit (1e-6) is inside that interval depends on the last bits of the floats, so such  *)
+(* rectangles may or may not take part.  band[i] must be an envelope for SOME such choice.         *)
+EnvelopeOK(x, dx, dy, band, tol) ==
+  \A i \in DOMAIN x :
+     LET sure  == {j \in DOMAIN dx : dx[j][1] + 1 < x[i] /\ x[i] < dx[j][2] - 1} \cup {i}
+         maybe == {j \in DOMAIN dx : dx[j][1] - 1 <= x[i] /\ x[i] <= dx[j][2] + 1} \cup {i}
+         loS == CHOOSE v \in {dy[j][1] : j \in sure} : \A w \in {dy[j][1] : j \in sure} : v <= w
+         loM == CHOOSE v \in {dy[j][1] : j \in maybe} : \A w \in {dy[j][1] : j \in maybe} : v <= w
+         hiS == CHOOSE v \in {dy[j][2] : j \in sure} : \A w \in {dy[j][2] : j \in sure} : v >= w
+         hiM == CHOOSE v \in {dy[j][2] : j \in maybe} : \A w \in {dy[j][2] : j \in maybe} : v >= w
+     IN /\ loM - tol <= band[i][1] /\ band[i][1] <= loS + tol
+        /\ hiS - tol <= band[i][2] /\ band[i][2] <= hiM + tol
+        /\ \E j \in maybe : band[i][1] - dy[j][1] <= tol /\ dy[j][1] - band[i][1] <= tol
+        /\ \E j \in maybe : band[i][2] - dy[j][2] <= tol /\ dy[j][2] - band[i][2] <= tol
+PointwiseCI(fn, fp, np, nn, bootFnr, bootFpr, a) ==
+  [fnr |-> [j \in DOMAIN fn |-> RuleOfThree(fn[j], np, <<bootFnr[j][1], bootFnr[j][2]>>, a)],
+   fpr |-> [j \in DOMAIN fp |-> RuleOfThree(fp[j], nn, <<bootFpr[j][1], bootFpr[j][2]>>, a)]]
+
 (* the same with arbitrary pointwise bootstrap intervals (a non-identity sampler): x6 / y6 are the     *)
 (* curve's FNR / FPR in fixed point, bootFnr / bootFpr the pointwise intervals before the rule of three *)
 BandsFromPointwise(fn, fp, np, nn, fnr6, fpr6, bootFnr, bootFpr, a) ==
